@@ -303,6 +303,19 @@ pub fn run_case(c: &Case) -> Outcome {
                     o.steps = n as u64;
                     let t = tree_of(&sim);
                     o.fails.extend(check_tree(&t, &expected_i(c.interval, n, true), n as u64 + 1, c.interval, if *timed { "speed-limited-timed" } else { "speed-limited" }, &mut o.checks));
+                    // fleet level: changing the interval on a vector of simulations reaches every nested object of every member
+                    if !*timed {
+                        let mut fleet = altrios_core::train::SpeedLimitTrainSimVec(vec![sim.clone(), sim.clone()]);
+                        for x in [Some(4usize), None, Some(1)] {
+                            fleet.set_save_interval(x);
+                            for (k, m) in fleet.0.iter().enumerate() {
+                                o.checks += 1;
+                                if let Some(iv) = tree_of(m).intervals.iter().find(|iv| iv.1 != x.map(|y| y as u64)) {
+                                    o.fails.push(("save-interval-not-propagated:fleet".into(), format!("member {k}: {} = {:?} after SpeedLimitTrainSimVec::set_save_interval({x:?})", iv.0, iv.1)));
+                                }
+                            }
+                        }
+                    }
                     // with every step saved the first row is the initial state
                     if c.interval == Some(1) && !sim.history.is_empty() {
                         o.checks += 1;
